@@ -399,28 +399,53 @@ def run(ctx):
                 else:
                     merged.append(v)
             seq = merged
-            chk.ob("C08.g", f.path, seq == want, f"writes {want}" if seq == want else f"writes {seq}, expected {want} (HELP text must go through sanitize_description; the line must end with a newline)", f.loc())
+            # what is written is the sanitiser's output as it stands: the escaped text is not edited afterwards (cutting it can
+            # split a two-character escape)
+            edited = False
+            if tail_req:
+                from props.common import _mut_borrowed
+
+                for c in nonforeign_calls(f):
+                    if c.fn is f and c.is_("formatting::sanitize_description") and not c.t["dest"].get("pr"):
+                        dl = c.t["dest"]["l"]
+                        # follow plain moves of the String into a named variable
+                        for _ in range(4):
+                            mv = [st["p"]["l"] for i_, k_, st in f.body.stmts() if st["k"] == "assign" and st["rv"]["k"] == "use" and (st["rv"]["a"].get("move") or {}).get("l") == dl and not (st["rv"]["a"].get("move") or {}).get("pr") and not st["p"].get("pr")]
+                            if _mut_borrowed(f.body, dl):
+                                edited = True
+                            if len(mv) != 1:
+                                break
+                            dl = mv[0]
+            if edited and seq == want:
+                seq = [("desc (edited after escaping)" if v == "desc" else v) for v in seq]
+            chk.ob("C08.g", f.path, seq == want, f"writes {want}" if seq == want else f"writes {seq}, expected {want} (HELP text must go through sanitize_description and be written as escaped; the line must end with a newline)", f.loc())
 
     # label pairs are escaped where they are emitted
     ktp = p.fn(f"{FMT}::key_to_parts")
     if need(chk, "C08.g", "formatting::key_to_parts", ktp):
-        emit = None
+        emits = []
         for c in nonforeign_calls(ktp):
             if c.fn is ktp and c.is_("Iterator::map"):
                 cl = strip_sym(Sym(ktp).operand(c.args[1]))
-                if cl[0] == "agg" and cl[1] == "closure":
-                    emit = p.fn(cl[5])
-        ok = False
+                if cl[0] == "agg" and cl[1] == "closure" and p.fn(cl[5]) is not None:
+                    emits.append(p.fn(cl[5]))
+        ok = bool(emits)
         detail = "no per-label formatting closure found"
-        if emit is not None:
+        # every closure that formats label pairs, on every path of key_to_parts (a second, `fast` emission path included)
+        for emit in emits:
             sk = [c for c in emit.body.calls() if c.is_("formatting::sanitize_label_key")]
             sv = [c for c in emit.body.calls() if c.is_("formatting::sanitize_label_value")]
             sy = Sym(emit)
-            def from_param(c, fld):
+            def from_param(c, fld, acc):
                 a = strip_sym(sym_through(sy.operand(c.args[0]), "Deref::deref", "String::as_str", "AsRef::as_ref"))
+                if sym_is_call(a, acc):
+                    a0 = strip_sym(a[2][0])
+                    return sym_arg(a0) is not None and sym_arg(a0)[0] == 1
                 return a[0] == "field" and a[2] == fld and sym_arg(a[1]) is not None and sym_arg(a[1])[0] == 1
-            ok = len(sk) == 1 and len(sv) == 1 and from_param(sk[0], "0") and from_param(sv[0], "1")
-            detail = f"label key sanitised at emission: {len(sk) == 1}, label value escaped at emission: {len(sv) == 1}"
+            ok1 = len(sk) == 1 and len(sv) == 1 and from_param(sk[0], "0", "Label::key") and from_param(sv[0], "1", "Label::value")
+            if not ok1 or len(emits) == 1:
+                detail = f"label key sanitised at emission: {len(sk) == 1}, label value escaped at emission: {len(sv) == 1}"
+            ok = ok and ok1
         chk.ob("C08.g", f"{ktp.path} [every emitted label pair is sanitised]", ok, "each (k, v) of the merged map is written as sanitize_label_key(k)=\"sanitize_label_value(v)\"" if ok else f"label pairs are not sanitised where they are written ({detail}): a value that enters the merged map by another route (e.g. a global label) is emitted verbatim and can end the value early or forge a line", ktp.loc())
 
     # ---------------- C08.f
